@@ -168,12 +168,17 @@ def run_case(case):
             gotc = {k: v[0] for k, v in got.items()}
             allowed = [rel(want_all)]
             if damaged_snaps:
-                # snapshots whose object was damaged may have become invisible (like a deletion)
-                keep = [s for s in H.live(readable_by=u) if s.loc not in damaged_snaps]
-                saved = H.snaps
-                H.snaps = keep + [s for s in saved if not s.alive]
-                allowed.append(rel(H.expected_restore(u, None, None)))
-                H.snaps = saved
+                # each damaged snapshot object either became invisible (like a deletion) or is still
+                # served intact from the warm cache: any subset may be missing
+                import itertools
+                ds = sorted(damaged_snaps)
+                for k in range(1, len(ds) + 1):
+                    for gone in itertools.combinations(ds, k):
+                        keep = [s for s in H.live(readable_by=u) if s.loc not in gone]
+                        saved = H.snaps
+                        H.snaps = keep + [s for s in saved if not s.alive]
+                        allowed.append(rel(H.expected_restore(u, None, None)))
+                        H.snaps = saved
             if gotc == allowed[0]:
                 H.probe('restore_ok_intact')
             elif gotc in allowed:
